@@ -56,7 +56,9 @@ RegistryKinds == {"regnode", "deregentity", "regruntime"}
 TrTx ==
     /\ l <= Len(Trace) /\ Ev.ev = "tx" /\ l' = l + 1
     /\ LET sp == Ev.spec
-           unauth == sp.kind \in RegistryKinds /\ sp.validity \in {"wrongsigner", "missingsig", "hasnodes", "notowner", "dropruntime"}
+           unauth == sp.kind \in RegistryKinds /\ sp.validity \in {"wrongsigner", "missingsig", "notowner", "dropruntime"}
+           \* ("hasnodes" - an entity that owns nodes deregisters - is judged on the state: K4 after the block; whether the entity
+           \*  still owns a node when the transaction runs depends on expiries and hand-overs earlier in the same block)
        IN /\ SetBad(<< <<unauth => Ev.code # 0, "A1/K4 a registry transaction without the required authority succeeded">> >>)
           /\ nAuth' = nAuth + (IF unauth THEN 1 ELSE 0)
     /\ UNCHANGED nReg
